@@ -33,6 +33,7 @@ func checkC09(ctx *Ctx, r *Report) {
 	c09Templates(ctx, r)
 	c09WriteOnlyFields(ctx, r)
 	c09OperatorTable(ctx, r)
+	c09BoundAgreement(ctx, r)
 	// shared: constraint derivation and path freshness
 	c16OptionShape(ctx, r)
 	c17Paths(ctx, r)
@@ -405,4 +406,141 @@ func evalTernaryOnOp(p *parse.PipeNode, op string) (string, bool) {
 		return a.Text, true
 	}
 	return b.Text, true
+}
+
+// c09BoundAgreement: in the JSON-family parsers a bound keyword is turned into a constraint inside an
+// `if schema.<Field> …` block. Keyword, exclusivity flag and operator must agree: a block guarded by a
+// *Min* field mentions no *Max* field of the schema library and produces only lower-bound operators
+// (and conversely); the strict operator is produced exactly under the Exclusive flag of the same bound.
+func c09BoundAgreement(ctx *Ctx, r *Report) {
+	stemOf := func(name string) string {
+		l := strings.ToLower(name)
+		hasMin, hasMax := strings.Contains(l, "min"), strings.Contains(l, "max")
+		switch {
+		case hasMin && !hasMax:
+			return "min"
+		case hasMax && !hasMin:
+			return "max"
+		}
+		return ""
+	}
+	opDir := map[string]string{"GreaterThanOp": "min", "GreaterThanEqualOp": "min", "MinLengthOp": "min", "MinItemsOp": "min",
+		"LessThanOp": "max", "LessThanEqualOp": "max", "MaxLengthOp": "max", "MaxItemsOp": "max"}
+	strict := map[string]bool{"GreaterThanOp": true, "LessThanOp": true}
+	nonStrict := map[string]bool{"GreaterThanEqualOp": true, "LessThanEqualOp": true}
+	blocks := 0
+	for _, rel := range []string{"internal/jsonschema", "internal/openapi"} {
+		p := ctx.Pkg(rel)
+		if p == nil {
+			r.Undecided("package %s not found", rel)
+			continue
+		}
+		info := p.TypesInfo
+		libField := func(e ast.Expr) *types.Var {
+			f := fieldOf(info, e)
+			if f == nil || f.Pkg() == nil || strings.HasPrefix(f.Pkg().Path(), modulePath) {
+				return nil
+			}
+			return f
+		}
+		for _, file := range p.Syntax {
+			var fn string
+			ast.Inspect(file, func(n ast.Node) bool {
+				if fd, ok := n.(*ast.FuncDecl); ok {
+					fn = fd.Name.Name
+				}
+				is, ok := n.(*ast.IfStmt)
+				if !ok {
+					return true
+				}
+				// the guard mentions exactly one library field with a bound stem
+				var guard *types.Var
+				ast.Inspect(is.Cond, func(k ast.Node) bool {
+					if e, ok := k.(ast.Expr); ok {
+						if f := libField(e); f != nil && stemOf(f.Name()) != "" {
+							guard = f
+						}
+					}
+					return true
+				})
+				if guard == nil {
+					return true
+				}
+				stem := stemOf(guard.Name())
+				// operators and library fields in the body
+				type use struct {
+					name      string
+					pos       token.Pos
+					underExcl bool
+				}
+				var ops []use
+				var fields []use
+				var walk func(n ast.Node, underExcl bool)
+				walk = func(n ast.Node, underExcl bool) {
+					ast.Inspect(n, func(k ast.Node) bool {
+						switch x := k.(type) {
+						case *ast.IfStmt:
+							if k == n {
+								return true
+							}
+							ex := underExcl
+							ast.Inspect(x.Cond, func(q ast.Node) bool {
+								if e, ok := q.(ast.Expr); ok {
+									if f := libField(e); f != nil && strings.Contains(f.Name(), "Exclusive") {
+										ex = true
+										fields = append(fields, use{f.Name(), e.Pos(), false})
+									}
+								}
+								return true
+							})
+							walk(x.Body, ex)
+							if x.Else != nil {
+								walk(x.Else, underExcl)
+							}
+							return false
+						case *ast.SelectorExpr:
+							if f := libField(x); f != nil && stemOf(f.Name()) != "" {
+								fields = append(fields, use{f.Name(), x.Pos(), underExcl})
+							}
+							if c, ok := info.Uses[x.Sel].(*types.Const); ok && c.Pkg() != nil && c.Pkg().Path() == astPkgPath {
+								if _, known := opDir[c.Name()]; known {
+									ops = append(ops, use{c.Name(), x.Pos(), underExcl})
+								}
+							}
+						}
+						return true
+					})
+				}
+				walk(is.Body, false)
+				if len(ops) == 0 {
+					return true
+				}
+				blocks++
+				cons := fmt.Sprintf("%s.%s block on %s", rel, fn, guard.Name())
+				bad := ""
+				for _, f := range fields {
+					if stemOf(f.name) != stem {
+						bad = fmt.Sprintf("the block guarded by %s reads %s (at %s): the flag of the other bound decides this one", guard.Name(), f.name, ctx.Pos(f.pos))
+					}
+				}
+				guardExclusive := strings.Contains(guard.Name(), "Exclusive")
+				for _, o := range ops {
+					if opDir[o.name] != stem {
+						bad = fmt.Sprintf("the block guarded by %s produces %s (at %s): a lower bound is emitted as an upper bound or conversely", guard.Name(), o.name, ctx.Pos(o.pos))
+					}
+					wantStrict := guardExclusive || o.underExcl
+					if strict[o.name] && !wantStrict {
+						bad = fmt.Sprintf("the block guarded by %s produces the strict operator %s outside any Exclusive test (at %s)", guard.Name(), o.name, ctx.Pos(o.pos))
+					}
+					if nonStrict[o.name] && wantStrict {
+						bad = fmt.Sprintf("the block guarded by %s produces the inclusive operator %s under the Exclusive flag (at %s)", guard.Name(), o.name, ctx.Pos(o.pos))
+					}
+				}
+				r.Check(bad == "", "kinds/bound-agreement", cons, is.Pos(), "keyword, exclusivity flag and operators agree", bad+": the validation / builder code generated from this constraint accepts or rejects the wrong boundary values")
+				return true
+			})
+		}
+	}
+	r.Count("bound-to-constraint blocks in the JSON-family parsers", blocks)
+	r.Floor("bound-to-constraint blocks in the JSON-family parsers", 10)
 }
